@@ -3,6 +3,7 @@
 //! model with controllable iteration order.  See /verif/DESIGN.md sections 2.1 and 3.4.
 
 pub mod bx;
+pub mod cast;
 pub mod dag;
 pub mod explore;
 pub mod maps;
@@ -452,6 +453,22 @@ mod tests {
         assert_eq!((a + b).c().to_bits(), (0.1f32 + 0.2f32).to_bits());
         assert_eq!((a / b).c().to_bits(), (0.1f32 / 0.2f32).to_bits());
         assert_eq!(format!("{:.2}", a), "0.10");
+    }
+    #[test]
+    fn casts_concretise_and_pin() {
+        let mut w = std::collections::HashMap::new();
+        w.insert("x".to_string(), 3.75f32.to_bits());
+        w.insert("y".to_string(), (-2.5f32).to_bits());
+        dag::reset(w, 0, true);
+        let x = dag::input("x", dag::Dom::Range(-100.0, 100.0));
+        let y = dag::input("y", dag::Dom::Range(-100.0, 100.0));
+        assert_eq!(cast::to_i32(x), 3);
+        assert_eq!(cast::to_i64(y), -2);
+        assert_eq!(cast::to_usize(y), 0);
+        assert_eq!(cast::to_f32(7usize).c(), 7.0);
+        assert_eq!(cast::to_u8(300i32), 44);
+        // two pinning comparisons per symbolic cast
+        dag::with(|c| assert_eq!(c.trace.len(), 4));
     }
     #[test]
     fn symbolic_shadow_matches() {
